@@ -779,7 +779,13 @@ class NestedSampler(BaseNestedSampler):
             self.proposal = self._flow_proposal
 
         if live_points and self.live_points is None and not self.finalised:
+            # The initial live points must be drawn from the prior, so always
+            # use the uninformed proposal, even if uninformed sampling is
+            # disabled, since the flow proposal has not been trained yet.
+            proposal = self.proposal
+            self.proposal = self._uninformed_proposal
             self.populate_live_points()
+            self.proposal = proposal
             flags[2] = True
 
         # Only reset the finalised flag if there are live points to continue
